@@ -25,7 +25,7 @@ def run(tier, seed):
     r4, i4 = syntaxrun.items("chain", maxchain=3 if tier == "quick" else 5)
     ck.add_tlc(r4)
     groups.append(("chain", i4))
-    progs, _ = refrun.gen_programs(seed + 21, 150 if tier == "quick" else 2000, 5, err_rate=0.3, features={"ext": True})
+    progs, _ = refrun.gen_programs(seed + 21, 150 if tier == "quick" else 2000, 5, err_rate=0.3, features={"ext": True, "ext2": "half"})
     r3, i3 = syntaxrun.items("prog", progs=progs)
     ck.add_tlc(r3)
     groups.append(("prog", i3))
